@@ -160,6 +160,64 @@ def check_history(hist):
     return None
 
 
+ARRAYLIKE_CASES = [(target, how1, how2) for target in ("instance", "array", "array1", "pair")
+                   for how1 in ("call", "setattr", "connect") for how2 in ("call", "setattr", "connect", "replace")]
+
+
+def check_arraylike(case):
+    """re-connection of the ports of an instance / instance array / instance pair of a two-terminal device, whose ports are
+    called `p` and `n` (an array also HAS an attribute `n`, its size): the last connection made is what `conns` holds and
+    what is built"""
+    import hdl21 as h
+    from rtc.meaning import package_meaning, InvalidPackage
+    target, how1, how2 = case
+    w = {"arraylike_case": repr(case)}
+    m = h.Module(name="ArrLike")
+    m.s1, m.s2, m.s3, m.s4 = h.Signals(4)
+    m.d1, m.d2 = h.Diff(), h.Diff()
+    pair = target == "pair"
+    inst = {"instance": lambda: h.R(r=1)(), "array": lambda: 2 * h.R(r=1)(), "array1": lambda: 1 * h.R(r=1)(),
+            "pair": lambda: h.Pair(h.R(r=1))()}[target]()
+    m.x = inst
+    first = dict(p=m.d1, n=m.s1) if pair else dict(p=m.s1, n=m.s2)
+    second = dict(p=m.d2, n=m.s3) if pair else dict(p=m.s3, n=m.s4)
+
+    def conn(how, port, c):
+        if how == "call":
+            m.x(**{port: c})
+        elif how == "setattr":
+            setattr(m.x, port, c)
+        elif how == "connect":
+            m.x.connect(port, c)
+        else:
+            m.x.replace(port, c)
+    try:
+        for port in ("p", "n"):
+            conn(how1, port, first[port])
+        for port in ("n", "p"):
+            conn(how2, port, second[port])
+    except Exception as e:
+        return (f"arraylike.raises.{type(e).__name__}", f"{case!r}: {type(e).__name__}: {str(e)[:120]}", w)
+    for port in ("p", "n"):
+        if m.x.conns.get(port) is not second[port]:
+            return ("arraylike.view", f"{case!r}: after re-connecting, conns[{port!r}] is {m.x.conns.get(port)!r}", w)
+    if target in ("array", "array1") and m.x.n != (2 if target == "array" else 1):
+        return ("arraylike.size", f"{case!r}: the array now reports size {m.x.n!r}", w)
+    try:
+        pkg = h.to_proto(m)
+        pm = package_meaning(pkg, "ArrLike")
+    except Exception as e:
+        return (f"arraylike.build.{type(e).__name__}", f"{case!r}: the final mapping is refused: {type(e).__name__}: {str(e)[-140:]}", w)
+    pkgmod = [x for x in pkg.modules if x.name.endswith("ArrLike")][0]
+    for i_ in pkgmod.instances:
+        for c_ in i_.connections:
+            t_ = c_.target
+            name = t_.sig if t_.WhichOneof("stype") == "sig" else t_.slice.signal if t_.WhichOneof("stype") == "slice" else ""
+            if name in ("s1", "s2", "d1_p", "d1_n"):
+                return ("arraylike.trace", f"{case!r}: {i_.name}.{c_.portname} is built on the REPLACED connection `{name}`", w)
+    return None
+
+
 OPEN_CASES = [(target, how, first) for target in ("instance", "array") for how in ("call", "setattr", "connect", "replaced-then")
               for first in ("sig", "bit", "cat", "noconn", "ref", "bref")]
 
@@ -228,6 +286,7 @@ def elab_histories(rnd, n, maxlen):
     tg += [("held", i, p) for i in range(3) for p in E_PORTS] + [("catref", i, p) for i in range(3) for p in E_PORTS]
     tg += [("bref", 0), ("bref", 1)]
     tg += [("refbit", i, p) for i in range(3) for p in E_PORTS]
+    tg += [("catlive", i, p) for i in range(3) for p in E_PORTS]
     for _ in range(n):
         L = rnd.randint(2, maxlen)
         yield tuple((rnd.choice(E_FORMS + ("disconnect",)), rnd.randrange(3), rnd.choice(E_PORTS), rnd.choice(tg))
@@ -265,6 +324,11 @@ def small_elab_histories():
             for selfref in (("ref", 0, "a"), ("held", 0, "a")):
                 yield (("setattr", 0, "a", x), ("setattr", 1, "a", ("ref", 0, "a")), (f, 0, "a", selfref))
                 yield (("setattr", 0, "a", x), (f, 0, "a", selfref), ("setattr", 1, "a", ("ref", 0, "a")), ("setattr", 2, "a", x))
+    # a concatenation of a port reference made while the port is on X; the port re-connected afterwards
+    for x in xs:
+        for y in ys:
+            for f in ("setattr", "call", "replace", "connect"):
+                yield (("setattr", 0, "a", x), ("setattr", 1, "a", ("catlive", 0, "a")), (f, 0, "a", y))
     # bit 0 of a port REFERENCE, taken while the port is on X; the port re-connected (or disconnected) afterwards
     for x in xs:
         for y in ys:
@@ -303,6 +367,8 @@ def check_elab_history(hist):
             return held[(t[1], t[2])]
         if t[0] == "catref":
             return h.Concat(held[(t[1], t[2])])
+        if t[0] == "catlive":
+            return h.Concat(getattr(insts[t[1]], t[2]))      # the reference taken NOW, whatever the port is on at this moment
         if t[0] == "refbit":
             return getattr(insts[t[1]], t[2])[0]       # bit 0 of whatever that (one-bit) port ends up on
         if t[0] == "bit":
@@ -315,7 +381,7 @@ def check_elab_history(hist):
     w = {"elab_history": repr(hist)}
     for step, (op, i, p, t) in enumerate(hist):
         inst = insts[i]
-        if t is not None and t[0] in ("catref", "refbit") and (t[1], t[2]) == (i, p):
+        if t is not None and t[0] in ("catref", "refbit", "catlive") and (t[1], t[2]) == (i, p):
             continue                                  # a port connected to a concatenation of itself: declares no net at all
         # (a port connected to a reference to ITSELF - `i.p = i.p` - is a connection like any other: it replaces what the
         #  port was tied to, and the port, with everything referring to it, ends up on a net of its own)
@@ -349,7 +415,7 @@ def check_elab_history(hist):
         else:
             view[(i, p)] = t
     # completion: every port explicitly connected, or referenced by a connection that is still live
-    referenced = {(t[1], t[2]) for t in view.values() if t[0] in ("ref", "held", "catref", "refbit")}
+    referenced = {(t[1], t[2]) for t in view.values() if t[0] in ("ref", "held", "catref", "refbit", "catlive")}
     for i in range(3):
         for p in E_PORTS:
             if (i, p) not in view and (i, p) not in referenced:
@@ -362,11 +428,11 @@ def check_elab_history(hist):
     # a mapping is not a valid end state (plain reference cycles are: they share one implicit signal)
     def cyclic_through_concat(start):
         seen, cur, through = set(), start, False
-        while cur in view and view[cur][0] in ("ref", "held", "catref", "refbit"):
+        while cur in view and view[cur][0] in ("ref", "held", "catref", "refbit", "catlive"):
             if cur in seen:
                 return through
             seen.add(cur)
-            through = through or view[cur][0] in ("catref", "refbit")
+            through = through or view[cur][0] in ("catref", "refbit", "catlive")
             cur = (view[cur][1], view[cur][2])
         return False
     if any(cyclic_through_concat(k) for k in view):
@@ -389,7 +455,7 @@ def check_elab_history(hist):
     for (i, p), t in view.items():
         if t[0] == "sig":
             union(("dev", i, p), ("sig", t[1]))
-        elif t[0] in ("ref", "held", "catref", "refbit"):
+        elif t[0] in ("ref", "held", "catref", "refbit", "catlive"):
             union(("dev", i, p), ("dev", t[1], t[2]))
         elif t[0] in ("bit", "cat"):
             union(("dev", i, p), ("bus", t[1]))
@@ -451,6 +517,11 @@ def run(ctx):
              "step: returned value, whole conns view, Inv_conn, Inv_refs; distinct = distinct history; non-trivial = "
              "length >= 2",
         bound="length<=%d" % (6 if thorough else 4), key_of=repr, nontrivial=lambda hcase: len(hcase) >= 2)
+    ctx.run_bounded("two-terminal-instances-arrays-pairs", ARRAYLIKE_CASES, check_arraylike,
+                    rule="ports p and n of an instance / array (n = 2, 1) / pair of resistors connected by call, assignment or "
+                         "connect(), then re-connected (n first) by call, assignment, connect() or replace(): conns holds the "
+                         "last connection, the array keeps its size, and nothing is built on the replaced signals",
+                    bound="4 targets x 3 x 4 ways", key_of=repr)
     ctx.run_bounded("open-after-disconnect", OPEN_CASES, check_open_after_disconnect,
                     rule="a port of an instance / array connected by call, assignment, connect() or replace() to a signal, bit, "
                          "concatenation, no-connect, port reference or bundle member, then disconnected and left open: the design "
@@ -472,6 +543,10 @@ def replay(payload):
     inp = payload.get("input") or {}
     if "elab_history" in inp:
         r = check_elab_history(eval(inp["elab_history"]))
+        print("replay:", r)
+        return 1 if r else 0
+    if "arraylike_case" in inp:
+        r = check_arraylike(eval(inp["arraylike_case"]))
         print("replay:", r)
         return 1 if r else 0
     if "open_case" in inp:
